@@ -15,7 +15,7 @@ RULE = ("EVERY listing of length 1..L over a 6-instruction alphabet (0-3 operand
         "spaces, commas, parentheses), blank line, section header, elision line '\\t...', file-format header dropped, DOS (CRLF) line endings, "
         "<sym+off> annotation added/changed/removed (incl. C++-style names with ', ' and '|'), '# comment' added (also on "
         "operand-less instructions), indentation 0..8, raw-byte column 1..7 bytes with different values, byte-continuation "
-        "line inserted; plus EVERY pair of edit kinds at the first two positions and EVERY (global edit, positional edit kind) pair; non-ASCII symbol names; symbol names, annotations and comments of 1200..5000 characters; listings of 65540 / 70001 instructions in four presentations (bare, a blank line on top, labels every 1000 instructions, no header); and an environment family: the CLI run with LC_ALL=C / PYTHONUTF8=0 on listings whose labels and comments contain non-ASCII UTF-8 names must report what it reports for ASCII names. Oracle (real code vs real code): the "
+        "line inserted; EVERY subset of the 7 preamble lines (blank, banner, two blanks, section header, blank, label) on listings of length 1..2; plus EVERY pair of edit kinds at the first two positions and EVERY (global edit, positional edit kind) pair; non-ASCII symbol names; symbol names, annotations and comments of 1200..5000 characters; listings of 65540 / 70001 instructions in four presentations (bare, a blank line on top, labels every 1000 instructions, no header); and an environment family: the CLI run with LC_ALL=C / PYTHONUTF8=0 on listings whose labels and comments contain non-ASCII UTF-8 names must report what it reports for ASCII names. Oracle (real code vs real code): the "
         "instruction stream and the all-matches result lists of 8 fixed rules are identical for the edited and the "
         "canonical presentation, also under a rule with valid_addr_range and a full-match flag (which installs the optional instruction observer). Non-trivial = every edited listing (each differs textually from the canonical one).")
 ASSUMPTIONS = ["presentation edits keep objdump's line syntax (TAB-separated address / bytes / text); arbitrary text is C08's subject"]
@@ -51,6 +51,7 @@ class Pres:
         self.before = [[] for _ in range(n + 1)]   # extra raw lines inserted before instruction i (i==n: at the end)
 
     crlf = False
+    preamble_mask = None    # 7 bits: which of the 6 header lines and the label line are printed (None: header / label0 decide)
 
     def render(self, insts):
         text = self._render(insts)
@@ -60,6 +61,9 @@ class Pres:
         out = list(HEADER) if self.header else []
         if self.label0 is not None and insts:
             out.append(f"{int(insts[0][0], 16):016x} <{self.label0}>:")
+        if self.preamble_mask is not None and insts:
+            full = list(HEADER) + [f"{int(insts[0][0], 16):016x} <f>:"]
+            out = [l for k, l in enumerate(full) if self.preamble_mask >> k & 1]
         for i, (a, m, o) in enumerate(insts):
             out += self.before[i]
             p = self.line[i]
@@ -161,7 +165,10 @@ def run_env(h, res, known):
             env = {k: v for k, v in os.environ.items() if k not in ("LC_ALL", "LANG", "PYTHONUTF8", "PYTHONIOENCODING", "LC_CTYPE")}
             env.update(extra)
             env["PYTHONPATH"] = os.path.join(REPO, "src")
-            r = subprocess.run([sys.executable, "-m", "jasm.main", "-p", rule, "-s", lp, "--all-matches"], capture_output=True, cwd=cwd, env=env)
+            try:
+                r = subprocess.run([sys.executable, "-m", "jasm.main", "-p", rule, "-s", lp, "--all-matches"], capture_output=True, cwd=cwd, env=env, timeout=600)
+            except subprocess.TimeoutExpired as e:
+                r = subprocess.CompletedProcess(e.cmd, "timeout", e.stdout or b"", e.stderr or b"")
             text = (r.stdout + r.stderr).decode("utf-8", "replace")
             outs[(variant, envname)] = (r.returncode, re.findall(r"Matched address: (\S+)", text), "RESULT: Pattern found" in text)
             res.evaluations += 1
@@ -213,6 +220,9 @@ def run_shard(shard, tier, h, res, known):
         for gname, gfn in global_edits():
             for (n1, f1) in kinds_p.values():
                 cases.append(((gname, f"{n1}@{pos}"), [gfn, f1]))
+        if len(insts) <= 2:   # every subset of the 7 preamble lines (blank, banner, blank, blank, section header, blank, label)
+            for mask in range(127):
+                cases.append(((f"preamble:{mask:07b}",), [lambda p, mask=mask: setattr(p, "preamble_mask", mask)]))
         texts = []
         for names, fns in cases:
             p = Pres(len(insts))
